@@ -70,7 +70,7 @@ Definition doc_b_text_only : doc :=
   (0%Q, [line (lit "00:00:05:00") ([PAC14; PAC14] ++ bye); line (lit "00:00:07:00") [EDM; EDM]]).
 Definition doc_a_no_edm : doc := (0%Q, [line (lit "00:00:01:00") ([ENM; ENM; RCL; RCL; PAC15; PAC15] ++ hello ++ [EOC; EOC])]).
 Definition doc_a_cut : doc := (0%Q, [line (lit "00:00:01:00") ([ENM; ENM; RCL; RCL; PAC15; PAC15] ++ hello ++ [EOC; EOC]);
-                                     line (lit "nonsense") [EDM]]).
+                                     line (lit "00:00") [EDM]]).
 Definition witnesses : list (list fld * doc * doc) :=
   [ (no_reset, doc_a, doc_b);                                        (* before the repair: nothing re-created *)
     (without FStash, doc_a, doc_b);                                  (* the captions of the first read come back *)
@@ -90,5 +90,5 @@ Proof. split; [|split]; vm_compute; reflexivity. Qed.
 (* the refused document of the last witness does raise, and the reused reader then reads document b as a new one would *)
 Example refused_then_valid :
   reader_history code_reset new_reader [doc_a_cut; doc_b]
-  = [RErr (ECrash 3); read (fst doc_b) (snd doc_b)] /\ (exists caps, read (fst doc_b) (snd doc_b) = ROk caps /\ length caps = 1%nat).
+  = [RErr ETiming; read (fst doc_b) (snd doc_b)] /\ (exists caps, read (fst doc_b) (snd doc_b) = ROk caps /\ length caps = 1%nat).
 Proof. split; [vm_compute; reflexivity|]. eexists. split; [vm_compute; reflexivity|reflexivity]. Qed.
